@@ -192,6 +192,14 @@ func seqProfile0(prop, tier string) *SeqProfile {
 			Rule: "C07: a case is one damaged head segment (log bytes + index bytes); for each: Check, Recover, Check, Recover again, reopen+append, Check; the reference codec projects the files before/after to (valid records, junk class, index class) and TLC judges RecoverOK / CheckOK. Enumerated: every truncation length (0, >=8), every byte position (bit flip) after the header, zero/0xFF/random tails of every length, index missing / truncated at every length / every byte changed / extra items, x four index configurations, V2 (V1: truncation and index damage only).",
 			Assume: []string{"the reference parser defines which records are valid"},
 		}
+	case "C14":
+		return &SeqProfile{Prop: prop, NRandom: 0, Module: "TraceFrames.tla", Cfg: "TraceFrames.cfg",
+			Design: []DesignRun{{Module: "Frames.tla", Cfg: "frames.cfg", Workers: 4, Timeout: 5 * time.Minute,
+				Note: "Frames.tla: NeverJunk (a read never returns what the scanner classifies as junk)"}},
+			Extra: runC14,
+			Rule: "C14: a case is one damage (bit flip / 1-8 byte overwrite / truncation / zero-filled tail at a position of one segment log file of a 3-segment V2 log with a hole, colliding keys and an equal-time run across a boundary) x mode (reopen, live with cold or warm readers); for each the full query list (Consume and Get at every offset, GetByKey/ConsumeByKey for every key incl. colliding and absent, GetByTime at 1us steps) is run in a single-threaded child process and every answer is judged by TLC with DamagedReadOK and AllocOK (bytes allocated by the call).",
+			Assume: []string{"truncation is only applied before opening: cutting a file short under a live mmap raises SIGBUS in any mmap reader", "which files a call reads is derived from the documented access pattern (conservative: 'other file only' is asserted only for answers that carry data)"},
+		}
 	case "C15":
 		g.WTrim, g.WCompact, g.WDelete, g.WDeleteMulti, g.WPublish = 22, 0, 8, 3, 45
 		g.TrimKinds = []string{"offset", "count", "size", "age"}
